@@ -23,30 +23,30 @@ import (
 
 // E1Job: replay Hist on a fresh stack; judge the last call with the requested oracles.
 type E1Job struct {
-	Cfg     rig.Config `json:"cfg"`
-	Setup   []ops.Op   `json:"setup,omitempty"` // executed on both sides before Hist, never judged (initial state builder)
-	Hist    []ops.Op   `json:"hist"`
-	Oracles []string   `json:"oracles"`
-	AllJ    bool       `json:"allj,omitempty"` // C07: all prefixes j instead of {0, n-1, n}
-	Foreign *ForeignSpec `json:"foreign,omitempty"` // C17: the drive starts as a foreign tar archive
-	TornBytes int      `json:"torn_bytes,omitempty"` // C15: the tape loses this many bytes at its end before the read-only instance opens it
-	AbsentIndex bool   `json:"absent_index,omitempty"` // C15: the read-only instance starts without an index
-	HInit   string     `json:"hinit,omitempty"`  // handle level: initial content spec of /f, or "<missing>"
-	HFlags  int        `json:"hflags,omitempty"` // handle level: OpenFile flags
-	Level   string     `json:"level,omitempty"` // "" = afero level (hierarchical reference), "archive" = Operations level (flat reference)
+	Cfg         rig.Config   `json:"cfg"`
+	Setup       []ops.Op     `json:"setup,omitempty"` // executed on both sides before Hist, never judged (initial state builder)
+	Hist        []ops.Op     `json:"hist"`
+	Oracles     []string     `json:"oracles"`
+	AllJ        bool         `json:"allj,omitempty"`         // C07: all prefixes j instead of {0, n-1, n}
+	Foreign     *ForeignSpec `json:"foreign,omitempty"`      // C17: the drive starts as a foreign tar archive
+	TornBytes   int          `json:"torn_bytes,omitempty"`   // C15: the tape loses this many bytes at its end before the read-only instance opens it
+	AbsentIndex bool         `json:"absent_index,omitempty"` // C15: the read-only instance starts without an index
+	HInit       string       `json:"hinit,omitempty"`        // handle level: initial content spec of /f, or "<missing>"
+	HFlags      int          `json:"hflags,omitempty"`       // handle level: OpenFile flags
+	Level       string       `json:"level,omitempty"`        // "" = afero level (hierarchical reference), "archive" = Operations level (flat reference)
 }
 
 type E1Res struct {
-	Outcome  string      `json:"outcome"`
-	Reason   string      `json:"reason"` // model's verdict: "" ok, else reason
-	Key      string      `json:"key"`
-	Diverged bool        `json:"diverged"` // implementation state != model state (or hang): do not expand
-	Viol     []Violation `json:"viol,omitempty"`
-	Info     ExecInfo    `json:"info"`
-	Harness  string      `json:"harness,omitempty"` // harness-level failure (never a verdict)
-	DivergedWhy string   `json:"diverged_why,omitempty"`
-	TapeLen  int         `json:"tape_len"`
-	Records  int         `json:"records"`
+	Outcome     string      `json:"outcome"`
+	Reason      string      `json:"reason"` // model's verdict: "" ok, else reason
+	Key         string      `json:"key"`
+	Diverged    bool        `json:"diverged"` // implementation state != model state (or hang): do not expand
+	Viol        []Violation `json:"viol,omitempty"`
+	Info        ExecInfo    `json:"info"`
+	Harness     string      `json:"harness,omitempty"` // harness-level failure (never a verdict)
+	DivergedWhy string      `json:"diverged_why,omitempty"`
+	TapeLen     int         `json:"tape_len"`
+	Records     int         `json:"records"`
 }
 
 var ctxBG = context.Background()
